@@ -1,15 +1,23 @@
-(* Prop_C16.v — property C16: every object member is addressable (PARTIAL).
-   Proved, for EVERY key (any list of bytes: all Unicode planes in UTF-8, quotes, backslashes, control
-   characters, escape-like sequences, the empty key): the library's unescape routines invert the
-   escapings of the three spellings —
-     ["k"] : unescape_double (esc_double k) = Some k      (JSON-style escaping, controls as \u00XX)
-     ['k'] : unescape_single (esc_single k) = Some k      (byte state machine + JSON unquoting)
-     .k    : unescape_cps (esc_dot k) = k                 (every symbol backslash-escaped, k without newline)
-   hence distinct keys are never confused (the escapings are injective).  Member lookup by the
-   unescaped key is exact (Json.lookup / String.eqb).  The model of JSON unquoting is coq/Text.v.
-   NOT proved: that the grammar rules consume exactly the escaped text (acceptance), and the short
-   escapes \b \t \n \f \r a caller may also use.  Both are covered by the correspondence check and the
-   direct oracle: keys from all planes, three spellings, five path positions, against direct map lookup. *)
+(* Prop_C16.v — property C16: every object member is addressable.
+   Proved, for EVERY key (any list of code points / bytes: all Unicode planes in UTF-8, quotes, backslashes,
+   control characters, escape-like sequences, the empty key):
+   * from the path text: the grammar regenerated from jsonpath.peg accepts the bracket spellings key_path 34 k
+     and key_path 39 k (KeyDefs.v: the quote and the backslash escaped by a backslash, controls as \u00XX,
+     everything else verbatim), the quoted-name rule consumes exactly the escaped text, and Parse returns the
+     single step naming exactly k (C16_bracket_spelling_parses); a retrieval with that path on an object holding
+     the member returns exactly that member, with its location in accessor mode (C16_member_addressable); on an
+     object without it, it selects nothing (C16_absent_key_selects_nothing);
+   * the library's unescape routines invert the escapings of the three spellings —
+       ["k"] : unescape_double (esc_double k) = Some k      (JSON-style escaping, controls as \u00XX)
+       ['k'] : unescape_single (esc_single k) = Some k      (byte state machine + JSON unquoting)
+       .k    : unescape_cps (esc_dot k) = k                 (every symbol backslash-escaped, k without newline)
+     hence distinct keys are never confused (the escapings are injective).  Member lookup by the unescaped key is
+     exact (Json.lookup / String.eqb).  The model of JSON unquoting is coq/Text.v.
+   NOT proved from the text: acceptance of the dot spelling and of bracket names at inner positions (after
+   another step, after .., in a filter operand, in a multi-name selector), and the short escapes \b \t \n \f
+   \r a caller may also use.  These are covered by the correspondence check and the direct oracle: keys from all
+   planes, three spellings, five path positions, against direct map lookup; the harness also sends key_path
+   itself (the driver confirms that the text sent is the extracted key_path of the key). *)
 From JP Require Import Slice Text Codec Json.
 Local Open Scope N_scope.
 
@@ -38,3 +46,53 @@ Proof. intros k. rewrite unescape_single_esc, unescape_double_esc. reflexivity. 
 
 Example C16_example : unescape_single (esc_single [97; 39; 92; 34; 10; 233]) = Some [97; 39; 92; 34; 10; 233].
 Proof. vm_compute. reflexivity. Qed.
+
+(* ---------- from the path text (KeyParse.v, KeyAddr.v) ---------- *)
+From JP Require Import Peg Grammar Tree Actions Eval EvalInv1 EvalInv4 EvalTop KeyParse KeyAddr.
+Local Open Scope N_scope.
+Open Scope list_scope.
+
+(* the grammar regenerated from jsonpath.peg accepts the bracket spelling of EVERY key (any list of code
+   points, in either quote style, escaped by the JSON rules: the quote, the backslash, controls as \u00XX,
+   everything else — all planes — verbatim), and Parse returns the one step that names exactly that key *)
+Theorem C16_bracket_spelling_parses : forall cfg parse_float regex_ok q k, (q = 34 \/ q = 39) ->
+  parse_with cfg parse_float regex_ok jsonpath_grammar (key_path q k) = ParseOk (key_node cfg q k).
+Proof. exact parse_key_path. Qed.
+Print Assumptions C16_bracket_spelling_parses.
+
+(* ... and a retrieval with that path on an object holding the member returns exactly that member *)
+Theorem C16_member_addressable : forall cfg parse_float regex_ok ffun afun regex_match,
+  (forall f v w, small v -> ffun f v = Some w -> small w) ->
+  (forall f l w, Forall small l -> afun f l = Some w -> small w) ->
+  forall q k m v st, (q = 34 \/ q = 39) -> small (VObj m) -> ok st ->
+  lookup m (string_of_bytes (utf8 k)) = Some v ->
+  exists t, parse_with cfg parse_float regex_ok jsonpath_grammar (key_path q k) = ParseOk t /\
+            fst (eval_run ffun afun regex_match t (VObj m) st) = OOk [key_result cfg (string_of_bytes (utf8 k)) v].
+Proof. exact key_addressable. Qed.
+Print Assumptions C16_member_addressable.
+
+(* ... and on an object without it selects nothing: no other member answers to the spelling *)
+Theorem C16_absent_key_selects_nothing : forall cfg parse_float regex_ok ffun afun regex_match,
+  (forall f v w, small v -> ffun f v = Some w -> small w) ->
+  (forall f l w, Forall small l -> afun f l = Some w -> small w) ->
+  forall q k m st, (q = 34 \/ q = 39) -> small (VObj m) -> ok st ->
+  lookup m (string_of_bytes (utf8 k)) = None ->
+  exists t e, parse_with cfg parse_float regex_ok jsonpath_grammar (key_path q k) = ParseOk t /\
+              fst (eval_run ffun afun regex_match t (VObj m) st) = OErr e.
+Proof. exact key_absent. Qed.
+Print Assumptions C16_absent_key_selects_nothing.
+
+(* non-vacuity: the key  a, double quote, backslash, single quote, LF, e-acute, U+1F600  in both spellings *)
+Example C16_path_example :
+  key_path 34 [97; 34; 92; 39; 10; 233; 128512] =
+    [36; 91; 34; 97; 92; 34; 92; 92; 39; 92; 117; 48; 48; 48; 97; 233; 128512; 34; 93] /\
+  key_path 39 [97; 34; 92; 39; 10; 233; 128512] =
+    [36; 91; 39; 97; 34; 92; 92; 92; 39; 92; 117; 48; 48; 48; 97; 233; 128512; 39; 93].
+Proof. split; vm_compute; reflexivity. Qed.
+
+(* non-vacuity of C16_member_addressable: an object with the members a-quote-b and x, and the initial state, meet the
+   hypotheses for the key  a, double quote, b *)
+Example C16_hypotheses_satisfiable :
+  let m := [(string_of_bytes (utf8 [97; 34; 98]), VNull); (string_of_bytes (utf8 [120]), VBool true)] in
+  small (VObj m) /\ ok st_init /\ lookup m (string_of_bytes (utf8 [97; 34; 98])) = Some VNull.
+Proof. cbv zeta. split; [cbn; repeat split|]. split; [repeat split|]. vm_compute. reflexivity. Qed.
